@@ -59,6 +59,8 @@ def cases(draw):
         "via": draw(st.sampled_from(["finder", "finder", "slice", "reslice", "finder_reuse", "finder_override", "finder_info"])),
         # after the search also ask the finder for its k best candidates
         "best_k": draw(st.sampled_from([0, 0, 1, 2, 3, 5])),
+        # size_dict carries an entry for a label the network does not use
+        "spare_size": draw(st.sampled_from([None, None, None, 2, 3])),
         # for finder_reuse: an earlier query with other targets on the SAME finder
         "first_targets": draw(
             st.fixed_dictionaries(
@@ -88,6 +90,10 @@ def run_case(spec, sub=None):
     output = tuple(net["output"])
     sizes = dict(net["sizes"])
     viol, cls = [], [f"via={spec['via']}", f"allow_outer={spec['allow_outer']}"]
+    if spec.get("spare_size"):
+        spare = next(c for c in "ZYXWVUTSRQPONMLKJIHGFEDCBA" if c not in sizes)
+        sizes[spare] = spec["spare_size"]
+        cls.append("spare_size_dict_entry")
 
     ok, tree = guarded(
         ctg.ContractionTree.from_path, inputs, output, sizes,
@@ -318,6 +324,13 @@ def run_case(spec, sub=None):
         ovh = new_tree.total_flops() / base_total
         if ovh > kw["target_overhead"] * (1 + 1e-12):
             viol.append(f"target_overhead {kw['target_overhead']} not met: overhead {ovh}")
+    # only labels of the network can be sliced (size_dict may hold spare entries)
+    used = {ix for t in inputs for ix in t} | set(output)
+    if any(ix not in used for ix in new_labels):
+        viol.append(
+            f"returned labels {sorted(new_labels)} include one the network does not carry "
+            f"(a spare size_dict entry): it counts towards nslices={new_tree.nslices} although there is nothing to slice"
+        )
     # forbidden labels
     if spec["allow_outer"] is False and any(ix in output for ix in new_labels):
         viol.append(f"output label sliced although allow_outer=False: {new_labels}")
